@@ -153,7 +153,14 @@ def order(run, p):
     # exec_command returns the five values in that order, from one ExecuteCommand
     ec = p.fn(GT + 'exec_command')
     ret = [r for r in ast.walk(ec.node) if isinstance(r, ast.Return)]
-    ok3 = len(ret) == 1 and norm(ret[0].value).replace(' ', '') == '(r.out,r.err,r.exc,r.exit_code,r.duration)'
+    ok3 = False
+    if len(ret) == 1 and isinstance(ret[0].value, ast.Tuple):
+        els = ret[0].value.elts
+        # the five attributes, in this order, of one and the same object, which is the ExecuteCommand(command, cwd) result
+        base = {norm(e.value) for e in els if isinstance(e, ast.Attribute)}
+        made = [s for s in ast.walk(ec.node) if isinstance(s, ast.Assign) and isinstance(s.value, ast.Call) and
+                getattr(s.value.func, 'id', '') == 'ExecuteCommand' and any(norm(t) in base for t in s.targets)]
+        ok3 = [getattr(e, 'attr', None) for e in els] == ['out', 'err', 'exc', 'exit_code', 'duration'] and len(base) == 1 and len(made) == 1
     run.ob('C12-ORDER', 'exec_command', ok3, 'exec_command returns %s' % (norm(ret[0].value) if ret else None), fn=ec)
     # remove_previous_outputs deletes the generated files
     rp = p.method('TestGenerator', 'remove_previous_outputs')
